@@ -2,7 +2,8 @@
 from . import crashfam
 
 PROFILE = {'topics': 2, 'nops': (14, 34), 'op_w': [5, 2.5, 2.5, 0.3, 0, 0.25, 1.2], 'read_w': [4, 2, 0.3, 0.3, 0, 0, 0],
-           'size_w': [6, 1.2, 1.2, 0.6, 0], 'batch_w': [6, 2, 0, 0], 'max_bytes': 60_000_000, 'no_final': True}
+           'size_w': [6, 1.2, 1.2, 0.6, 0], 'batch_w': [6, 2, 0, 0], 'max_bytes': 60_000_000, 'no_final': True,
+           'reject_w': 0.5, 'reject_kinds': ['over-cap', 'empty-batch', 'empty-batch'], 'prelude_alloc_only': 0.45}
 RULE = ('every generated workload (appends, batch appends, reads, clean/dirty markers, optional clean restart; all fsync schedules, both '
         'backends, both modes) is run once to number its I/O events (file create/set_len/fsync/dir-fsync, block writes, flushes, io_uring '
         'submissions, index/marker tmp-write/fsync/rename/dir-fsync, background fsyncs) per process and thread class; then one fresh '
@@ -14,9 +15,9 @@ RULE = ('every generated workload (appends, batch appends, reads, clean/dirty ma
 
 def run(tier, seed, budget):
     q = tier == 'quick'
-    rep = crashfam.run_family('C07', tier, seed, budget, PROFILE, n_workloads=14 if q else 150, max_points=70 if q else 400,
+    rep = crashfam.run_family('C07', tier, seed, budget, PROFILE, n_workloads=12 if q else 150, max_points=55 if q else 400,
                               batch_subsets=6 if q else 24, rule=RULE,
-                              required={'crash_points': 300, 'crash_points:main': 150, 'crash_points:clean': 5, 'crash_at_event:write': 40,
+                              required={'crash_points': 250, 'crash_points:main': 120, 'crash_points:clean': 5, 'crash_at_event:write': 40,
                                         'crash_at_event:create': 3, 'crash_at_event:rename': 5, 'in_flight_op:append': 20, 'in_flight_op:batch': 10},
                               assumptions=['process-crash model: _exit at the hook before the named I/O; completed syscalls and stores into MAP_SHARED mappings persist',
                                            'crash points of the persister/background thread classes are timing dependent relative to the API thread'],
